@@ -67,6 +67,8 @@ pub enum SeqOp {
     /// an island between unknown bases: an N run whose length is a small multiple of k, k+1 or k+2, then exactly
     /// k (or k+1) valid bases, then one more N (scaffold gaps of round lengths next to short contigs)
     Island { mult: u8, bases: Vec<u8> },
+    /// base^h . mid . base^h: a split k-mer whose two arms are the same homopolymer (all-zero arms for A)
+    SameArms { base: u8, mid: u8 },
 }
 
 #[derive(Clone, Debug, Serialize, Deserialize, PartialEq)]
@@ -100,7 +102,9 @@ pub fn materialise_rec(rec: &Rec, k: usize, earlier: &[u8]) -> Vec<u8> {
             SeqOp::Ns(n, lower) => {
                 // 1..99: that many N; 100..255: a long gap as scaffolders write them (k, k+1, 2k+3 or a round number)
                 let len = if *n < 100 { *n as usize } else { [k, k + 1, 2 * k + 3, 100, 255, 256, 1000, 1024][*n as usize % 8] };
-                out.extend(std::iter::repeat(if *lower { b'n' } else { b'N' }).take(len))
+                // (runs of 7, 14, 21, ... are written with '.', the no-call symbol of older base callers, which ska
+                // reads as an unknown base just like N)
+                out.extend(std::iter::repeat(if *n % 7 == 0 && *n < 100 { b'.' } else if *lower { b'n' } else { b'N' }).take(len))
             }
             SeqOp::Copy {
                 src,
@@ -142,6 +146,11 @@ pub fn materialise_rec(rec: &Rec, k: usize, earlier: &[u8]) -> Vec<u8> {
             }
             // 1..69: that many A; 70..255: a homopolymer of C, G or T of 1..62 bases (two such ops in a row
             // give a junction X^m Y^n: consecutive windows with the same arms and different middle bases)
+            SeqOp::SameArms { base, mid } => {
+                out.extend(std::iter::repeat(b2c(*base)).take(h));
+                out.push(b2c(*mid));
+                out.extend(std::iter::repeat(b2c(*base)).take(h));
+            }
             SeqOp::Island { mult, bases } => {
                 let run = (1 + (*mult as usize) % 3) * (k + (*mult as usize / 3) % 3);
                 out.extend(std::iter::repeat(b'N').take(run));
@@ -226,6 +235,7 @@ pub fn seqop_strategy(k: usize) -> BoxedStrategy<SeqOp> {
         1 => (vec(0u8..4, 1..6), 0u8..4).prop_map(|(arm, mid)| SeqOp::Pal { arm, mid }),
         2 => (1u8..=255).prop_map(SeqOp::PolyA),
         1 => (0u8..18, vec(0u8..4, 3..12)).prop_map(|(mult, bases)| SeqOp::Island { mult, bases }),
+        1 => (0u8..4, 0u8..4).prop_map(|(base, mid)| SeqOp::SameArms { base, mid }),
     ]
     .boxed()
 }
@@ -458,9 +468,9 @@ pub fn filler(k: usize, salt: usize) -> Vec<u8> {
 /// Sample names of a generated set: deliberately not in sorted order and with punctuation that is
 /// legal in a name (no white space, no leading '-'): a comma, a dot, '=', '#', and names that look like
 /// file names (a sample may be called `iso1.fa`; a name is never a path), a first sample called `sample` (what a
-/// column title would be), a name starting with a non-ASCII letter next to the same name without it, two names that differ in letter case only.
+/// column title would be), a name starting with a non-ASCII letter next to the same name without it, two names that differ in letter case only, names that are numbers (one of them equal to its own 1-based position, one not).
 pub fn set_sample_name(i: usize) -> String {
-    const NAMES: [&str; 14] = ["sample", "recA", "#2", "RecA", "6925_1#7", "ΔrecA", "iso_B,rep2", "x.1", "A-b", "iso1.fa", "k=5", "reads_1.fastq.gz", "s10", "s2"];
+    const NAMES: [&str; 16] = ["sample", "recA", "3", "1", "#2", "RecA", "6925_1#7", "ΔrecA", "iso_B,rep2", "x.1", "A-b", "iso1.fa", "k=5", "reads_1.fastq.gz", "s10", "s2"];
     if i < NAMES.len() {
         NAMES[i].to_string()
     } else {
